@@ -447,6 +447,9 @@ def execute(plan: dict, ch: Chooser) -> dict:
     for ex in loop.exceptions:
         e = ex.get("exception")
         ctx.probe("loop_exception_" + type(e).__name__ if e else "loop_exception")
+        if "handle" in ex and e is not None:
+            # an exception escaped a loop callback (e.g. the library's resolve-later timer): part of advert processing
+            ctx.violate("callback-raises", f"timer/{type(e).__name__}", f"exception escaped a loop callback while processing adverts: {e!r} ({ex.get('message')})")
     ctx.state(mode, tuple(sorted(plan["pairing"].values())), len(waiters), len(adverts))
     sample = {"mode": mode, "pairing": plan["pairing"], "ops": [(o["t"], o["op"], o.get("id") or (o.get("adv") or {}).get("id"), (o.get("adv") or {}).get("bad")) for o in plan["ops"]][:10],
               "waiters": [(w["id"], w["t0"], w["timeout"], w["t1"], "found" if w["res"] is not None else w["exc"]) for w in waiters][:5]}
